@@ -261,6 +261,11 @@ mod verif_bounded {
             expect(label, &scen, "lookup of a file announced only without epoch", "SQLite", s.find_message_epoch_by_tag_content(&gid(1), "x ffff").unwrap(), None);
             expect(label, &scen, "lookup of an unknown file", "SQLite", s.find_message_epoch_by_tag_content(&gid(1), "x 0000").unwrap(), None);
             expect(label, &scen, "lookup with LIKE wildcards in the needle", "SQLite", s.find_message_epoch_by_tag_content(&gid(1), "x %").unwrap(), None);
+            // "content_substring is treated as a literal substring match": letter case matters (F21: LIKE is case-insensitive for ASCII)
+            same(label, &scen, "lookup with a needle that differs from the stored text in letter case only (\"x ABCD\")", m.find_message_epoch_by_tag_content(&gid(1), "x ABCD").unwrap(), s.find_message_epoch_by_tag_content(&gid(1), "x ABCD").unwrap());
+            expect(label, &scen, "lookup with a needle that differs in letter case only", "SQLite", s.find_message_epoch_by_tag_content(&gid(1), "x ABCD").unwrap(), None);
+            same(label, &scen, "lookup with `_` in the needle", m.find_message_epoch_by_tag_content(&gid(1), "x a_cd").unwrap(), s.find_message_epoch_by_tag_content(&gid(1), "x a_cd").unwrap());
+            same(label, &scen, "lookup with the empty needle", m.find_message_epoch_by_tag_content(&gid(1), "").unwrap().is_some(), s.find_message_epoch_by_tag_content(&gid(1), "").unwrap().is_some());
         }
     }
 
@@ -313,12 +318,13 @@ mod verif_bounded {
         }
         // pruning: everything strictly older than the bound goes, nothing else
         let a_created = before_s.iter().find(|x| x.0 == "A").unwrap().1;
-        // (the returned count is not compared between the back ends: SQLite counts rows, memory counts snapshots; nothing depends on it)
-        m.prune_expired_snapshots(before_m.iter().find(|x| x.0 == "A").unwrap().1).unwrap();
+        // the returned count is the number of SNAPSHOTS removed (trait doc), not of table rows (F22)
+        expect(label, scen, "prune_expired_snapshots(created_at of A) removes nothing", "memory", m.prune_expired_snapshots(before_m.iter().find(|x| x.0 == "A").unwrap().1).unwrap(), 0);
         expect(label, scen, "prune_expired_snapshots(created_at of A) removes nothing", "SQLite", s.prune_expired_snapshots(a_created).unwrap(), 0);
         expect(label, scen, "A still listed after pruning with its own age as bound", "memory", m.list_group_snapshots(&gid(1)).unwrap().len(), 1);
         expect(label, scen, "A still listed after pruning with its own age as bound", "SQLite", s.list_group_snapshots(&gid(1)).unwrap().len(), 1);
-        expect(label, scen, "prune_expired_snapshots(created_at of A + 1) removes something", "SQLite", s.prune_expired_snapshots(a_created + 1).unwrap() > 0, true);
+        expect(label, scen, "prune_expired_snapshots(created_at of A + 1): number of snapshots removed (A spans several table rows)", "SQLite", s.prune_expired_snapshots(a_created + 1).unwrap(), 1);
+        expect(label, scen, "prune_expired_snapshots(created_at of A + 1): number of snapshots removed", "memory", m.prune_expired_snapshots(before_m.iter().find(|x| x.0 == "A").unwrap().1 + 1).unwrap(), 1);
         expect(label, scen, "nothing listed afterwards", "SQLite", s.list_group_snapshots(&gid(1)).unwrap().len(), 0);
     }
     // C20 (restart): a fresh EpochSnapshotManager over the SQLite back end -- what a restart leaves -- must read the stored snapshots of a
@@ -396,6 +402,92 @@ mod verif_bounded {
         let (m, s) = stores();
         run(label, "memory", &m, &edge);
         run(label, "SQLite", &s, &edge);
+    }
+    // C09 "consumes only that snapshot ... destroys no other snapshots" / C10: a snapshot name is scoped to its group (the trait keys
+    // snapshots by group AND name). Two groups hold snapshots under the SAME names; rolling one group back to N, and releasing M of one
+    // group, leave the other group's N and M in place and usable. Scope: 2 groups, 2 shared names, both back ends.
+    #[test]
+    fn snapshot_names_are_scoped_to_their_group() {
+        let label = "sqlite_bounded.snapshot_names_are_scoped_to_their_group";
+        let (m, s) = stores();
+        for (name, st) in [("memory", &m as &dyn MdkStorageProviderDyn), ("SQLite", &s as &dyn MdkStorageProviderDyn)] {
+            for g in 1..=2u8 { let mut r = group(g, g); r.name = format!("g{g} at snapshot time"); st.put_group_(r); st.snap_(g, "N"); st.snap_(g, "M"); }
+            for g in 1..=2u8 { let mut r = group(g, g); r.name = format!("g{g} later"); r.epoch = 7; st.put_group_(r); }
+            let scen = "g1 and g2 each take snapshots named N and M, both groups change, g1 rolls back to N and releases M";
+            expect(label, scen, "rollback_group_to_snapshot(g1, N)", name, st.rollback_(1, "N"), true);
+            expect(label, scen, "release_group_snapshot(g1, M)", name, st.release_(1, "M"), true);
+            expect(label, scen, "snapshot names of g1 afterwards", name, st.names_(1), Vec::<String>::new());
+            expect(label, scen, "snapshot names of g2 afterwards (untouched)", name, st.names_(2), vec!["M".to_string(), "N".to_string()]);
+            expect(label, scen, "g2 record (untouched by g1's rollback)", name, st.group_name_(2), Some("g2 later".to_string()));
+            expect(label, scen, "then rollback_group_to_snapshot(g2, N)", name, st.rollback_(2, "N"), true);
+            expect(label, scen, "g2 record after ITS rollback", name, st.group_name_(2), Some("g2 at snapshot time".to_string()));
+            expect(label, scen, "g1 record after g2's rollback", name, st.group_name_(1), Some("g1 at snapshot time".to_string()));
+            expect(label, scen, "snapshot names of g2 after its rollback", name, st.names_(2), vec!["M".to_string()]);
+            // boundary value of the prune bound: everything is older than u64::MAX
+            expect(label, scen, "then prune_expired_snapshots(u64::MAX): number of snapshots removed", name, st.prune_(u64::MAX), Some(1));
+            expect(label, scen, "snapshot names of g2 after pruning everything", name, st.names_(2), Vec::<String>::new());
+        }
+    }
+    trait MdkStorageProviderDyn { fn put_group_(&self, g: Group); fn snap_(&self, g: u8, n: &str); fn rollback_(&self, g: u8, n: &str) -> bool; fn release_(&self, g: u8, n: &str) -> bool; fn names_(&self, g: u8) -> Vec<String>; fn group_name_(&self, g: u8) -> Option<String>; fn prune_(&self, t: u64) -> Option<usize>; }
+    impl<T: MdkStorageProvider> MdkStorageProviderDyn for T {
+        fn put_group_(&self, g: Group) { self.save_group(g).unwrap() }
+        fn snap_(&self, g: u8, n: &str) { self.create_group_snapshot(&gid(g), n).unwrap() }
+        fn rollback_(&self, g: u8, n: &str) -> bool { self.rollback_group_to_snapshot(&gid(g), n).is_ok() }
+        fn release_(&self, g: u8, n: &str) -> bool { self.release_group_snapshot(&gid(g), n).is_ok() }
+        fn names_(&self, g: u8) -> Vec<String> { let mut v: Vec<String> = self.list_group_snapshots(&gid(g)).unwrap().into_iter().map(|x| x.0).collect(); v.sort(); v }
+        fn group_name_(&self, g: u8) -> Option<String> { self.find_group_by_mls_group_id(&gid(g)).unwrap().map(|g| g.name) }
+        fn prune_(&self, t: u64) -> Option<usize> { self.prune_expired_snapshots(t).ok() }
+    }
+    // C18 / C10 "exact pagination ... incl. boundary values": an offset beyond every row -- up to usize::MAX -- gives an empty page on both
+    // back ends, for the message listing and for the pending welcomes (F20: `offset as i64` wrapped negative = first page on SQLite).
+    #[test]
+    fn huge_offsets_give_an_empty_page() {
+        let label = "sqlite_bounded.huge_offsets_give_an_empty_page";
+        let (m, s) = stores();
+        m.save_group(group(1, 1)).unwrap(); s.save_group(group(1, 1)).unwrap();
+        for i in 1..=3u8 { let x = msg(1, i, 10 + i as u64, 10, Some(1), MessageState::Processed, "c", Tags::new()); m.save_message(x.clone()).unwrap(); s.save_message(x).unwrap(); }
+        let welcome = |id: u8| Welcome {
+            id: eid(id), event: UnsignedEvent { id: Some(eid(id)), pubkey: pk(), created_at: Timestamp::from(10u64), kind: Kind::MlsWelcome, tags: Tags::new(), content: "w".into() },
+            mls_group_id: gid(1), nostr_group_id: [1; 32], group_name: format!("n{id}"), group_description: format!("d{id}"), group_image_hash: None, group_image_key: None, group_image_nonce: None,
+            group_admin_pubkeys: BTreeSet::from([pk()]), group_relays: BTreeSet::from([RelayUrl::parse("wss://r.example").unwrap()]), welcomer: pk(), member_count: 3, state: WelcomeState::Pending, wrapper_event_id: eid(id.wrapping_add(100)),
+        };
+        for i in 1..=3u8 { let w = welcome(i); m.save_welcome(w.clone()).unwrap(); s.save_welcome(w).unwrap(); }
+        for off in [3usize, 4, u32::MAX as usize, i64::MAX as usize - 1, i64::MAX as usize, i64::MAX as usize + 1, usize::MAX - 1, usize::MAX] {
+            let scen = format!("3 stored messages / 3 pending welcomes, limit 2, offset {off}");
+            for so in [MessageSortOrder::CreatedAtFirst, MessageSortOrder::ProcessedAtFirst] {
+                let p = Pagination::with_sort_order(Some(2), Some(off), so);
+                expect(label, &scen, &format!("messages() {so:?}: number of rows"), "SQLite", s.messages(&gid(1), Some(p.clone())).map(|v| v.len()).ok(), Some(0));
+                expect(label, &scen, &format!("messages() {so:?}: number of rows"), "memory", m.messages(&gid(1), Some(p)).map(|v| v.len()).ok(), Some(0));
+            }
+            let p = mdk_storage_traits::welcomes::Pagination::new(Some(2), Some(off));
+            expect(label, &scen, "pending_welcomes(): number of rows", "SQLite", s.pending_welcomes(Some(p.clone())).map(|v| v.len()).ok(), Some(0));
+            expect(label, &scen, "pending_welcomes(): number of rows", "memory", m.pending_welcomes(Some(p)).map(|v| v.len()).ok(), Some(0));
+        }
+    }
+    // C10 "a lookup returns the last value saved under that key", two corner inputs that the SQLite schema cannot represent. Both FAIL on the
+    // unchanged tree and are recorded known findings (F23, F24: known_findings.txt); each has its own test so that nothing else hides behind them.
+    #[test]
+    fn self_update_completed_at_zero_reads_back() {
+        let label = "sqlite_bounded.self_update_completed_at_zero_reads_back";
+        let (m, s) = stores();
+        let mut g = group(1, 1); g.self_update_state = SelfUpdateState::CompletedAt(Timestamp::from(0u64));
+        m.save_group(g.clone()).unwrap(); s.save_group(g.clone()).unwrap();
+        let scen = "save_group with self_update_state = CompletedAt(Timestamp 0)";
+        expect(label, scen, "self_update_state read back", "memory", m.find_group_by_mls_group_id(&gid(1)).unwrap().map(|g| g.self_update_state), Some(g.self_update_state));
+        expect(label, scen, "self_update_state read back", "SQLite", s.find_group_by_mls_group_id(&gid(1)).unwrap().map(|g| g.self_update_state), Some(g.self_update_state));
+    }
+    #[test]
+    fn snapshot_of_a_group_without_rows_exists() {
+        let label = "sqlite_bounded.snapshot_of_a_group_without_rows_exists";
+        let (m, s) = stores();
+        let scen = "create_group_snapshot(g5, early) before anything of g5 is stored ; save_group(g5) ; rollback_group_to_snapshot(g5, early)";
+        for (name, st) in [("memory", &m as &dyn MdkStorageProviderDyn), ("SQLite", &s as &dyn MdkStorageProviderDyn)] {
+            st.snap_(5, "early");
+            expect(label, scen, "snapshot names of g5 after the snapshot", name, st.names_(5), vec!["early".to_string()]);
+            st.put_group_(group(5, 5));
+            expect(label, scen, "rollback accepted", name, st.rollback_(5, "early"), true);
+            expect(label, scen, "g5 record after the rollback (none existed at snapshot time)", name, st.group_name_(5), None);
+        }
     }
     // C20 / C09 / C06: a rollback that the back end REFUSES (its target snapshot is gone: released or TTL-pruned by another process on
     // the same file) leaves the manager's accounting as it was: nothing stored is dropped by it, and the snapshots taken before it still
